@@ -9,6 +9,7 @@ import (
 	gocvss20 "github.com/pandatix/go-cvss/20"
 	gocvss30 "github.com/pandatix/go-cvss/30"
 	gocvss31 "github.com/pandatix/go-cvss/31"
+	gocvss40 "github.com/pandatix/go-cvss/40"
 	"pgregory.net/rapid"
 
 	"verifharness/adapt"
@@ -360,6 +361,49 @@ func checkScoreShape(c ScoreCase) error {
 	return nil
 }
 
+// shapeOfObject applies the C11 predicate to an object as it is (no rebuild).
+func shapeOfObject(p *adapt.Pkg, o adapt.Obj, ctx string) error {
+	var sc []float64
+	if e := adapt.Safe(func() { sc = o.Scores() }); e != nil {
+		return fmt.Errorf("%s: v%s scoring object %s: %v", ctx, p.V.Name, o.State(), e)
+	}
+	for i, s := range sc {
+		name := adapt.ScoreNames[p.V.Name][i]
+		if !shapeOK(s, p.V.Name == "2.0" && name == "EnvironmentalScore") {
+			return fmt.Errorf("%s: v%s %s = %.17g: not the float64 nearest to k/10 with 0 <= k <= 100 (object %s)", ctx, p.V.Name, name, s, o.State())
+		}
+		if p.Rating != nil {
+			if r, err := p.Rating(s); err != nil || r == "" {
+				return fmt.Errorf("%s: v%s Rating(%v) = %q, %v", ctx, p.V.Name, s, r, err)
+			}
+		}
+	}
+	return nil
+}
+
+// checkShapeHistory: the predicate after every step of an operation history
+// (objects on which a metric has been Set several times are reachable too).
+func checkShapeHistory(c gen.History) error {
+	p := adapt.Pkgs[c.Ver]
+	o, _, err := startObject(p, c.Start)
+	if err == errSkip {
+		return nil
+	}
+	if err != nil {
+		return err
+	}
+	if err := shapeOfObject(p, o, "start"); err != nil {
+		return err
+	}
+	for i, op := range c.Ops {
+		o.Set(string(op.Abv), string(op.Val))
+		if err := shapeOfObject(p, o, fmt.Sprintf("after step %d Set(%q,%q)", i, string(op.Abv), string(op.Val))); err != nil {
+			return err
+		}
+	}
+	return nil
+}
+
 func c11v2(h *H) {
 	var bad int64 = -1
 	var neg, positive, k100 int64
@@ -567,7 +611,12 @@ func c11v4(h *H) {
 
 func TestC11(t *testing.T) {
 	h := start(t, "C11", "every scoring method evaluated on the complete class spaces (v2.0: all 139,968,000 assignments; v3.0 and v3.1: 16,588,800 effective classes each; v4.0: 15,116,544 effective classes) and on rapid lifts into the raw spaces (corner profiles, Modified metrics, supplemental metrics); predicate: finite, bit-exact float64 nearest to k/10, 0 <= k <= 100 (v2.0 EnvironmentalScore: k <= 100 only), Rating accepts it; non-trivial = score > 0; enumerated classes distinct by construction, lifts by assignment")
-	if doReplay(h, "score-shape", checkScoreShape) {
+	if h.replaying() && h.replay.Kind == "score-shape" {
+		doReplay(h, "score-shape", checkScoreShape)
+		return
+	}
+	if h.replaying() && h.replay.Kind == "history" {
+		doReplay(h, "history", checkShapeHistory)
 		return
 	}
 	if env.Shards <= 1 {
@@ -584,6 +633,14 @@ func TestC11(t *testing.T) {
 	n := env.Scale(60000, 150000)
 	if env.Shards > 1 {
 		n = env.Scale(60000, 500000)
+	}
+	for vi := range spec.Versions {
+		vi := vi
+		Rapid(h, "history", env.Scale(6000, 20000), func(rt *rapid.T) gen.History {
+			c := gen.Hist(rt, vi, 64)
+			h.R.Case("history v"+spec.Versions[vi].Name+" (scores after every Set step)", "H"+histKey(c))
+			return c
+		}, checkShapeHistory)
 	}
 	Rapid(h, "score-shape", n, func(rt *rapid.T) ScoreCase {
 		vi := gen.Version(rt)
@@ -695,18 +752,28 @@ func defaultAssign(g *graph, digits []int) spec.Assignment {
 
 var v2Dims = []dim{{"AV", []string{"L", "A", "N"}}, {"AC", []string{"H", "M", "L"}}, {"Au", []string{"M", "S", "N"}},
 	{"C", []string{"N", "P", "C"}}, {"I", []string{"N", "P", "C"}}, {"A", []string{"N", "P", "C"}},
-	{"E", []string{"U", "POC", "F", "H"}}, {"RL", []string{"OF", "TF", "W", "U"}}, {"RC", []string{"UC", "UR", "C"}}}
+	// ND scores as the most severe value: it is the top of each temporal chain (equal to its predecessor)
+	{"E", []string{"U", "POC", "F", "H", "ND"}}, {"RL", []string{"OF", "TF", "W", "U", "ND"}}, {"RC", []string{"UC", "UR", "C", "ND"}}}
 
 var v3BaseTempDims = []dim{{"AV", []string{"P", "L", "A", "N"}}, {"AC", []string{"H", "L"}}, {"PR", []string{"H", "L", "N"}}, {"UI", []string{"R", "N"}},
 	{"S", []string{"U", "C"}}, {"C", []string{"N", "L", "H"}}, {"I", []string{"N", "L", "H"}}, {"A", []string{"N", "L", "H"}},
-	{"E", []string{"U", "P", "F", "H"}}, {"RL", []string{"O", "T", "W", "U"}}, {"RC", []string{"U", "R", "C"}}}
+	// X scores as the most severe value (H / U / C): top of the chain, equal to its predecessor
+	{"E", []string{"U", "P", "F", "H", "X"}}, {"RL", []string{"O", "T", "W", "U", "X"}}, {"RC", []string{"U", "R", "C", "X"}}}
 
-var v3ReqDims = []dim{{"CR", []string{"L", "M", "H"}}, {"IR", []string{"L", "M", "H"}}, {"AR", []string{"L", "M", "H"}}}
+// an undefined requirement scores as Medium: X sits next to M in the chain
+var v3ReqDims = []dim{{"CR", []string{"L", "M", "X", "H"}}, {"IR", []string{"L", "M", "X", "H"}}, {"AR", []string{"L", "M", "X", "H"}}}
 
+// v4 graph dimensions: the 15 effective metrics plus the undefined value of E (scores as A)
+// and of CR/IR/AR (score as H) at the top of their chains.
 func v4GraphDims() []dim {
 	var ds []dim
 	for _, d := range spec.V4Dims {
-		ds = append(ds, dim{d.Name, d.Vals})
+		vals := append([]string{}, d.Vals...)
+		switch d.Name {
+		case "E", "CR", "IR", "AR":
+			vals = append(vals, "X")
+		}
+		ds = append(ds, dim{d.Name, vals})
 	}
 	return ds
 }
@@ -716,7 +783,7 @@ func runGraph(h *H, g *graph) {
 	n := g.size()
 	p := adapt.Pkgs[g.ver]
 	ns := len(g.scores)
-	vals := make([]float64, n*ns)
+	vals := make([]float32, n*ns) // scores are one-decimal numbers <= 10: float32 keeps their order (NaN stays NaN)
 	var evalBad int64 = -1
 	const chunk = 2048
 	parallelFor((n+chunk-1)/chunk, func(ci int) {
@@ -729,11 +796,20 @@ func runGraph(h *H, g *graph) {
 				}()
 				var sc []float64
 				if g.ver == 3 {
-					var d15 [15]int
-					copy(d15[:], g.digits(i))
-					o, err := buildV4Class(d15)
-					if err != nil {
-						panic(err)
+					var o gocvss40.CVSS40
+					for k, dg := range g.digits(i) {
+						name, val := g.dims[k].Name, g.dims[k].Vals[dg]
+						var err error
+						if (name == "SI" || name == "SA") && val == "S" {
+							if err = o.Set(name, "N"); err == nil {
+								err = o.Set("M"+name, "S")
+							}
+						} else {
+							err = o.Set(name, val)
+						}
+						if err != nil {
+							panic(err)
+						}
 					}
 					sc = []float64{o.Score()}
 				} else {
@@ -744,7 +820,7 @@ func runGraph(h *H, g *graph) {
 					sc = o.Scores()
 				}
 				for k, si := range g.scores {
-					vals[i*ns+k] = sc[si]
+					vals[i*ns+k] = float32(sc[si])
 				}
 			}()
 		}
@@ -834,8 +910,8 @@ func runGraph(h *H, g *graph) {
 }
 
 func TestC12(t *testing.T) {
-	h := start(t, "C12", "complete neighbour graphs: v2.0 base+temporal (34,992 classes), v3.0 and v3.1 base+temporal (124,416 each), v3.1 environmental (3,359,232 classes over the 8 effective metrics, CR/IR/AR and E/RL/RC), v4.0 (15,116,544 effective classes x 15 metrics, SI/SA with the 4-level order N<L<H<S); every pair of classes that differ in one metric by one severity step must satisfy score(more severe) >= score(less severe); non-trivial = pairs whose scores differ; pairs are distinct by construction")
-	h.R.Assume("severity orders from the specifications: AV P<L<A<N (v2: L<A<N), AC H<L (v2: H<M<L), AT P<N, PR H<L<N, Au M<S<N, UI R<N (v4: A<P<N), S U<C, impacts N<L<H (v2: N<P<C; v4 SI/SA: N<L<H<S), E U<P<F<H (v2: U<POC<F<H; v4: U<P<A), RL O<T<W<U (v2: OF<TF<W<U), RC U<R<C (v2: UC<UR<C), requirements L<M<H")
+	h := start(t, "C12", "complete neighbour graphs, with the undefined value (ND / X) of every defaulting metric included as an extra level next to the value it scores as: v2.0 base+temporal (72,900 classes), v3.0 base+temporal (259,200), v3.1 base+temporal+environmental (16,588,800 classes over the 8 effective metrics, CR/IR/AR and E/RL/RC), v4.0 (47,775,744 classes x 15 metrics, SI/SA with the 4-level order N<L<H<S); every pair of classes that differ in one metric by one severity step must satisfy score(more severe) >= score(less severe); non-trivial = pairs whose scores differ; pairs are distinct by construction")
+	h.R.Assume("severity orders from the specifications: AV P<L<A<N (v2: L<A<N), AC H<L (v2: H<M<L), AT P<N, PR H<L<N, Au M<S<N, UI R<N (v4: A<P<N), S U<C, impacts N<L<H (v2: N<P<C; v4 SI/SA: N<L<H<S), E U<P<F<H (v2: U<POC<F<H; v4: U<P<A), RL O<T<W<U (v2: OF<TF<W<U), RC U<R<C (v2: UC<UR<C), requirements L<M<H; ND/X placed where it scores: at the top for E/RL/RC (and v4 CR/IR/AR), next to M for v3 CR/IR/AR")
 	h.R.Assume("v2.0 and v3.0 environmental scores are outside the statement (they are genuinely non-monotone) and are not checked")
 	if doReplay(h, "mono", checkMono) {
 		return
